@@ -42,8 +42,8 @@ fn one_header(
     if sink != emitted {
         return Err(("emitters-disagree", format!("slice emitter {} vs Write emitter {}", hex(&emitted), hex(&sink))));
     }
-    if se_w != *se {
-        return Err(("emitters-disagree", "encrypter objects differ after slice vs Write emission".into()));
+    if se_w != *se && !ciphers::same_future(&se_w, se, 64, |o, d| o.encrypt(d)) {
+        return Err(("emitters-disagree", "after slice vs Write emission the two encrypters no longer produce the same stream".into()));
     }
     let want_len = if size <= 0x7FFF { 4 } else { 5 };
     if emitted.len() != want_len {
@@ -89,8 +89,8 @@ fn one_header(
     if (h_b.size, h_b.opcode) != (size, opcode) {
         return Err(("recover-two-step", format!("two-step path recovered size={:#x} opcode={:#x}", h_b.size, h_b.opcode)));
     }
-    if cd_a != *cd {
-        return Err(("decoders-disagree", "decrypter objects differ after read path vs two-step path".into()));
+    if cd_a != *cd && !ciphers::same_future(&cd_a, cd, 64, |o, d| o.decrypt(d)) {
+        return Err(("decoders-disagree", "after read path vs two-step path the two decrypters are no longer at the same stream position".into()));
     }
     Ok(emitted.len())
 }
